@@ -1085,7 +1085,16 @@ def arr_attr(I, a, attr):
     if attr == 'name':
         return None
     if attr == 'append' and a.kind == 'list':
-        raise Unsupported('append to symbolic list')
+        def append(I_, item):
+            # list of symbolic length, outside summarised loops: in-place extension by one element
+            if I_.loops or I_.guards:
+                raise Unsupported('append to symbolic list under a guard / in a summarised loop')
+            n0, f0 = a.n, a.f
+            a.f = lambda i: ite(lift(i) == lift(n0), item, f0(i))
+            a.n = binop('Add', n0, 1)
+            a.view = a.comp = None
+            return None
+        return append
     if attr == 'get_indexer':
         raise Unsupported('get_indexer')
     if attr == 'unique':
